@@ -1,68 +1,91 @@
-// ---- ebounds_lemmas.rs: the rounding interval of a float on its own grid (C18: `ErrorBounds::error_bounds`).
+// ---- ebounds_lemmas.rs: the rounding interval of a float (C18: `ErrorBounds::error_bounds`).
 // Needs round_prelude.rs (round_def, Mode, ipow), round_float_repr.rs (same_value, ndigits).
 //
 // MODEL.  f = sig * b^exp with d = ndigits(sig) <= p = precision, so f = m * ulp with ulp = b^(exp + d - p) (FBig::ulp) and
-// m = sig * b^(p - d) an integer with exactly p digits.  When |m| is not the smallest p-digit number b^(p-1) (f is not a
-// power of the base), every real y with |y - f| < ulp lies in the binade of f, is rounded on the grid of spacing ulp,
-// and "y rounds to f under mode M at precision p" is round_def(M, y/ulp, m).  With y = (m + X/D) * ulp (X/D any rational)
-// this is `rounds_on_grid(M, m, X, D)`; reals further than one ulp away never round to f (first conjunct of round_def).
+// m = sig * b^(p - d) an integer with exactly p digits.  A real y with |y - f| < ulp is rounded on the grid of its OWN
+// binade: the grid of spacing ulp when |y| >= |f| or when |m| is not the smallest p-digit number b^(p-1); the finer grid
+// of spacing ulp/b when f is a power of the base (|m| == b^(p-1); for a normalized significand: |sig| == 1) and |y| < |f|.
+// With the refinement factor g (b for a power of the base, 1 otherwise) and y = f + (X/D) * (ulp/g), X/D any rational,
+// "y rounds to f under mode M at precision p" is `rounds_on_grid(M, m, g, X, D)`; reals further away than one grid step
+// never round to f (first conjunct of round_def).  All bounds are counted in halves of the FINE step ulp/g.
 
-/// y = (m + X/D) * ulp rounds to m * ulp on the grid of spacing ulp
-pub open spec fn rounds_on_grid(md: Mode, m: int, X: int, D: int) -> bool { round_def(md, m * D + X, D, m) }
+/// y = f + (X/D) * (ulp/g), f = m * ulp, rounds to f
+pub open spec fn rounds_on_grid(md: Mode, m: int, g: int, X: int, D: int) -> bool {
+    if (m > 0 && X >= 0) || (m < 0 && X <= 0) {
+        round_def(md, m * (g * D) + X, g * D, m)            // binade of f: y / ulp rounds to m
+    } else {
+        round_def(md, (m * g) * D + X, D, m * g)            // binade below: y / (ulp/g) rounds to m * g
+    }
+}
 
-/// -l2/2 <(=) X/D <(=) r2/2: y - f lies in the interval from -L to +R with L = l2 half-ulps, R = r2 half-ulps and the
+/// -l2/2 <(=) X/D <(=) r2/2: y - f lies in the interval from -L to +R with L = l2, R = r2 half fine steps and the
 /// inclusion flags
 pub open spec fn eb_in(X: int, D: int, l2: int, r2: int, il: bool, ir: bool) -> bool {
     (if il { -(l2 * D) <= 2 * X } else { -(l2 * D) < 2 * X }) && (if ir { 2 * X <= r2 * D } else { 2 * X < r2 * D })
 }
 /// the bounds describe EXACTLY the reals that round to f
-pub open spec fn eb_exact(md: Mode, m: int, l2: int, r2: int, il: bool, ir: bool) -> bool {
-    forall|X: int, D: int| D > 0 ==> (#[trigger] rounds_on_grid(md, m, X, D) == eb_in(X, D, l2, r2, il, ir))
+pub open spec fn eb_exact(md: Mode, m: int, g: int, l2: int, r2: int, il: bool, ir: bool) -> bool {
+    forall|X: int, D: int| D > 0 ==> (#[trigger] rounds_on_grid(md, m, g, X, D) == eb_in(X, D, l2, r2, il, ir))
 }
-/// 2 * (lsig * b^lexp) == k * b^eu: the bound is k half-ulps
+/// 2 * (lsig * b^lexp) == k * b^eu: the bound is k halves of b^eu
 pub open spec fn half_units(b: int, lsig: int, lexp: int, eu: int, k: int) -> bool { same_value(b, 2 * lsig, lexp, k, eu) }
+
+/// f is a power of the base (normalized significand: +-1)
+pub open spec fn eb_pow(sig: int) -> bool { iabs(sig) == 1 }
 
 /// the postcondition of error_bounds for a limited-precision float (see MODEL)
 pub open spec fn eb_post(md: Mode, b: int, sig: int, exp: int, p: int, lsig: int, lexp: int, rsig: int, rexp: int, il: bool, ir: bool) -> bool {
     let d = ndigits(b, sig) as int;
-    let eu = exp + d - p;
+    let g = if eb_pow(sig) { b } else { 1 };
+    let eu = exp + d - p - (if eb_pow(sig) { 1int } else { 0int });       // exponent of the fine step ulp/g
     let m = sig * ipow(b, (p - d) as nat);
-    exists|l2: int, r2: int| 0 <= l2 <= 2 && 0 <= r2 <= 2 && half_units(b, lsig, lexp, eu, l2) && half_units(b, rsig, rexp, eu, r2)
-        && #[trigger] eb_exact(md, m, l2, r2, il, ir)
+    exists|l2: int, r2: int| 0 <= l2 <= 2 * g && 0 <= r2 <= 2 * g && half_units(b, lsig, lexp, eu, l2) && half_units(b, rsig, rexp, eu, r2)
+        && #[trigger] eb_exact(md, m, g, l2, r2, il, ir)
 }
-/// the domain on which the MODEL holds: limited precision, non-zero, fits its precision, not a power of the base
-/// (|sig| != b^(d-1)), even base (half an ulp is representable), exponent arithmetic inside isize
+/// the domain on which the MODEL holds: limited precision, non-zero normalized significand (invariant of float Repr:
+/// "not divisible by the base") that fits the precision, even base (half a step is representable), exponent
+/// arithmetic inside isize
 pub open spec fn eb_domain(b: int, sig: int, exp: int, p: int) -> bool {
     let d = ndigits(b, sig) as int;
     &&& b >= 2 && b % 2 == 0
     &&& p != 0 && sig != 0 && d <= p
-    &&& iabs(sig) != ipow(b, (d - 1) as nat)
-    &&& isize::MIN + 1 < exp + d - p <= isize::MAX && d <= isize::MAX && p <= isize::MAX && exp + d <= isize::MAX
+    &&& sig % b != 0
+    &&& isize::MIN + 2 < exp + d - p <= isize::MAX && d <= isize::MAX && p <= isize::MAX && exp + d <= isize::MAX
 }
 
 /// the table that follows from the definition of the modes (used by the proofs only, never by a contract)
-pub open spec fn eb_table(md: Mode, m: int) -> (int, int, bool, bool) {
+pub open spec fn eb_table(md: Mode, m: int, g: int) -> (int, int, bool, bool) {
     match md {
-        Mode::Zero => if m > 0 { (0, 2, true, false) } else { (2, 0, false, true) },
+        Mode::Zero => if m > 0 { (0, 2 * g, true, false) } else { (2 * g, 0, false, true) },
         Mode::Away => if m > 0 { (2, 0, false, true) } else { (0, 2, true, false) },
-        Mode::Up => (2, 0, false, true),
-        Mode::Down => (0, 2, true, false),
-        Mode::HalfAway => if m > 0 { (1, 1, true, false) } else { (1, 1, false, true) },
-        Mode::HalfEven => (1, 1, m % 2 == 0, m % 2 == 0),
+        Mode::Up => if m > 0 { (2, 0, false, true) } else { (2 * g, 0, false, true) },
+        Mode::Down => if m > 0 { (0, 2 * g, true, false) } else { (0, 2, true, false) },
+        Mode::HalfAway => if m > 0 { (1, g, true, false) } else { (g, 1, false, true) },
+        Mode::HalfEven => if m > 0 { (1, g, (m * g) % 2 == 0, m % 2 == 0) } else { (g, 1, m % 2 == 0, (m * g) % 2 == 0) },
     }
 }
-pub proof fn lemma_eb_table(md: Mode, m: int)
-    requires m != 0
-    ensures eb_exact(md, m, eb_table(md, m).0, eb_table(md, m).1, eb_table(md, m).2, eb_table(md, m).3)
+pub proof fn lemma_eb_table(md: Mode, m: int, g: int)
+    requires m != 0, g >= 1
+    ensures eb_exact(md, m, g, eb_table(md, m, g).0, eb_table(md, m, g).1, eb_table(md, m, g).2, eb_table(md, m, g).3)
 {
-    let t = eb_table(md, m);
-    assert forall|X: int, D: int| D > 0 implies (#[trigger] rounds_on_grid(md, m, X, D) == eb_in(X, D, t.0, t.1, t.2, t.3)) by {
-        let R = m * D;
-        assert(m > 0 ==> R >= D) by (nonlinear_arith) requires R == m * D, D > 0;
-        assert(m < 0 ==> R <= -D) by (nonlinear_arith) requires R == m * D, D > 0;
-        assert(t.0 * D == (if t.0 == 0 { 0 } else if t.0 == 1 { D } else { 2 * D })) by (nonlinear_arith) requires 0 <= t.0 <= 2;
-        assert(t.1 * D == (if t.1 == 0 { 0 } else if t.1 == 1 { D } else { 2 * D })) by (nonlinear_arith) requires 0 <= t.1 <= 2;
-        assert((R + X) - R == X);
+    let t = eb_table(md, m, g);
+    let mg = m * g;
+    assert(m > 0 ==> mg >= g) by (nonlinear_arith) requires mg == m * g, g >= 1;
+    assert(m < 0 ==> mg <= -g) by (nonlinear_arith) requires mg == m * g, g >= 1;
+    assert forall|X: int, D: int| D > 0 implies (#[trigger] rounds_on_grid(md, m, g, X, D) == eb_in(X, D, t.0, t.1, t.2, t.3)) by {
+        let gd = g * D;
+        assert(gd >= D) by (nonlinear_arith) requires gd == g * D, g >= 1, D > 0;
+        let ro = m * gd;       // f on the coarse grid
+        let ri = mg * D;       // f on the fine grid
+        assert(m > 0 ==> ro >= gd) by (nonlinear_arith) requires ro == m * gd, gd > 0;
+        assert(m < 0 ==> ro <= -gd) by (nonlinear_arith) requires ro == m * gd, gd > 0;
+        assert(mg > 0 ==> ri >= D) by (nonlinear_arith) requires ri == mg * D, D > 0;
+        assert(mg < 0 ==> ri <= -D) by (nonlinear_arith) requires ri == mg * D, D > 0;
+        assert((2 * g) * D == 2 * gd) by (nonlinear_arith) requires gd == g * D;
+        assert(0 * D == 0 && 1 * D == D && 2 * D == D + D) by (nonlinear_arith);
+        assert(t.0 == 0 || t.0 == 1 || t.0 == 2 || t.0 == g || t.0 == 2 * g);
+        assert(t.1 == 0 || t.1 == 1 || t.1 == 2 || t.1 == g || t.1 == 2 * g);
+        assert((ro + X) - ro == X && (ri + X) - ri == X);
     }
 }
 
@@ -76,16 +99,65 @@ pub proof fn lemma_grid_sig(b: int, sig: int, k: nat)
     assert(sig > 0 ==> sig * q > 0) by (nonlinear_arith) requires q >= 1;
     assert(sig < 0 ==> sig * q < 0) by (nonlinear_arith) requires q >= 1;
 }
-/// 0, one ulp, and half an ulp (even base) in half-ulps
-pub proof fn lemma_half_units(b: int, eu: int)
+/// 0, one coarse / fine step and their halves (even base), counted in halves of the fine step b^eu_fine;
+/// eu is the exponent of f.ulp(), pw says whether the fine step is ulp/b
+pub proof fn lemma_half_units(b: int, eu: int, pw: bool)
     requires b >= 2, b % 2 == 0
-    ensures half_units(b, 0, 0, eu, 0), half_units(b, 1, eu, eu, 2), half_units(b, (b + 1) / 2, eu - 1, eu, 1)
+    ensures ({
+        let ef = eu - (if pw { 1int } else { 0int });
+        let g = if pw { b } else { 1 };
+        &&& half_units(b, 0, 0, ef, 0)
+        &&& half_units(b, 1, eu, ef, 2 * g)                     // f.ulp()
+        &&& half_units(b, 1, ef, ef, 2)                         // the fine step
+        &&& half_units(b, (b + 1) / 2, eu - 1, ef, g)           // half of f.ulp()
+        &&& half_units(b, (b + 1) / 2, ef - 1, ef, 1)           // half of the fine step
+    })
 {
-    reveal_with_fuel(ipow, 2);
-    if 0 <= eu { assert(0 == 0 * ipow(b, (eu - 0) as nat)) by (nonlinear_arith); } else { assert(0 == 0 * ipow(b, (0 - eu) as nat)) by (nonlinear_arith); }
+    reveal_with_fuel(ipow, 3);
+    let ef = eu - (if pw { 1int } else { 0int });
+    if 0 <= ef { assert(0 == 0 * ipow(b, (ef - 0) as nat)) by (nonlinear_arith); } else { assert(0 == 0 * ipow(b, (0 - ef) as nat)) by (nonlinear_arith); }
     assert(ipow(b, 0) == 1);
     assert(ipow(b, 1) == b);
     let h = (b + 1) / 2;
     assert(2 * h == b);
     assert(2 * h == 1 * ipow(b, 1));
+    assert(2 * 1 == 2 * ipow(b, 0));
+    if pw {
+        assert(2 * b == 2 * ipow(b, 1));
+        assert(2 * h == b * ipow(b, 0));
+    }
+}
+
+/// a normalized significand +-1 has one digit
+pub proof fn lemma_pow_digits(b: int, sig: int)
+    requires b >= 2, iabs(sig) == 1
+    ensures ndigits(b, sig) == 1
+{
+    broadcast use ax_ndigits;
+    let d = ndigits(b, sig);
+    if d >= 2 {
+        lemma_ipow_pos(b, (d - 2) as nat);
+        let q = ipow(b, (d - 2) as nat);
+        assert(ipow(b, (d - 1) as nat) == b * q);
+        assert(b * q >= 2) by (nonlinear_arith) requires b >= 2, q >= 1;
+    }
+}
+
+/// parity of the significand at full precision, m = sig * b^k for an even base: even as soon as k >= 1
+pub proof fn lemma_grid_parity(b: int, sig: int, k: nat)
+    requires b >= 2, b % 2 == 0
+    ensures (sig * ipow(b, k)) % 2 == (if k == 0 { sig % 2 } else { 0 })
+{
+    if k == 0 {
+        assert(ipow(b, 0) == 1);
+        assert(sig * 1 == sig);
+    } else {
+        let q = ipow(b, (k - 1) as nat);
+        assert(ipow(b, k) == b * q);
+        let h = b / 2;
+        assert(b == 2 * h);
+        let t = h * (sig * q);
+        assert(sig * (b * q) == t * 2) by (nonlinear_arith) requires b == 2 * h, t == h * (sig * q);
+        vstd::arithmetic::div_mod::lemma_mod_multiples_basic(t, 2);
+    }
 }
